@@ -417,7 +417,22 @@ func (e *Executor) isExecuted(prop *proposal.Proposal) (bool, error) {
 
 func (e *Executor) storeProposalsStatus(props []*BtcTransferProposal, status store.PropStatus) {
 	e.propMutex.Lock()
+	defer e.propMutex.Unlock()
+
 	for _, prop := range props {
+		if status == store.FailedProp {
+			// executed is final: another execution of the same proposal (released by a retry
+			// while this one was in progress) may have succeeded in the meantime
+			current, err := e.propStorer.PropStatus(prop.Source, prop.Destination, prop.Data.DepositNonce)
+			if err != nil {
+				log.Err(err).Msgf("Failed reading proposal %+v status, not marking it %s", prop, status)
+				continue
+			}
+			if current == store.ExecutedProp {
+				continue
+			}
+		}
+
 		err := e.propStorer.StorePropStatus(
 			prop.Source,
 			prop.Destination,
@@ -427,5 +442,4 @@ func (e *Executor) storeProposalsStatus(props []*BtcTransferProposal, status sto
 			log.Err(err).Msgf("Failed storing proposal %+v status %s", prop, status)
 		}
 	}
-	e.propMutex.Unlock()
 }
